@@ -326,6 +326,13 @@ func genProgram(r *rand.Rand, streamNS string) Program {
 		p.Ret = "streamerr"
 	default:
 		p.Ret = "eof"
+		// one misbehaviour at a time: a program that returns io.EOF does not also
+		// write a pseudo reply, so that a missing reply has one cause
+		for i, w := range p.Writes {
+			if strings.HasPrefix(w.Kind, "type-") {
+				p.Writes[i].Kind = "other-id"
+			}
+		}
 	}
 	return p
 }
